@@ -102,6 +102,7 @@ def _m2t():
     servers and instances matters."""
     cfg = _m2()
     cfg['traits'] = ['t2']
+    cfg['servers']['s1']['initial'] = True
     cfg['events'] = mastercfg.ev(
         ('app+', 'pl'), ('app+', 't1'), ('app-', 0),
         ('alloc', 2), ('alloc', 0),
